@@ -92,7 +92,7 @@ def gen_program(rng, seed):
     return text, "prog"
 
 
-def run_case(text, d, big=False):
+def run_case(text, d, big=False, one_op_per_line=False):
     """Returns (problem or None or 'skip')."""
     f1 = os.path.join(d, "a.hera")
     with open(f1, "w") as f:
@@ -115,6 +115,16 @@ def run_case(text, d, big=False):
     c3, listing2, e3, _ = asmrun.real_main(["preprocess"] + pre + [f2])
     if c3 != 0 or listing2 != listing:
         return "preprocessing its own output is not a fixed point: " + first_diff(listing, listing2)
+    # debugging operations mean nothing to the listing: deleting them from the input must leave it as it is
+    # (line-based deletion: only for programs written with one operation per line)
+    stripped = asmrun.strip_debug(text) if one_op_per_line else text
+    if stripped != text:
+        f4 = os.path.join(d, "d.hera")
+        with open(f4, "w") as f:
+            f.write(stripped)
+        c7, listing3, e7, _ = asmrun.real_main(["preprocess"] + pre + [f4])
+        if c7 == 0 and strip_listing(listing3) != strip_listing(listing):
+            return "the listing changes when the debugging operations are deleted from the input: " + first_diff(strip_listing(listing), strip_listing(listing3))
     c4, obf, e4, _ = asmrun.real_main(["preprocess", "--obfuscate"] + pre + [f1])
     if c4 != 0:
         return "`preprocess --obfuscate` ends with {}: {}".format(c4, e4[:100])
@@ -146,10 +156,14 @@ def check(seed, n):
     violations, evals, dist, seen = [], 0, {"data": 0, "prog": 0}, set()
     d = asmrun.scratch_dir()
     try:
-        for k in range(n):
-            text, kind = gen_program(rng, seed * 2003 + k)
+        planned = asmrun.debug_runs()
+        for k in range(n + len(planned)):
+            if k < len(planned):
+                text, kind = planned[k], "prog"
+            else:
+                text, kind = gen_program(rng, seed * 2003 + k)
             big = False   # --big-stack is not accepted in preprocess mode
-            r = run_case(text, d, big)
+            r = run_case(text, d, big, one_op_per_line=(k < len(planned)))
             proto.sample("roundtrip", {"text": text})
             if r == "skip":
                 continue
@@ -158,7 +172,7 @@ def check(seed, n):
             seen.add((text, big))
             if r:
                 violations.append({"property": "C10", "stream": "roundtrip", "sig": "rt:" + r.split(":")[0][:50],
-                                   "case": {"text": text, "big_stack": big}, "what": r})
+                                   "case": {"text": text, "big_stack": big, "one_op_per_line": k < len(planned)}, "what": r})
     finally:
         shutil.rmtree(d, ignore_errors=True)
     return {"evaluations": evals, "violations": violations, "disagreements": [], "distribution": dist, "distinct": len(seen)}
